@@ -125,7 +125,7 @@ func transparentStruct(t types.Type) bool {
 	// a few external struct types whose exported fields are used directly
 	if n, ok := t.(*types.Named); ok && n.Obj().Pkg() != nil {
 		switch n.Obj().Pkg().Path() + "." + n.Obj().Name() {
-		case "net/http.Request", "net/url.URL", "github.com/fsnotify/fsnotify.Event":
+		case "net/http.Request", "net/url.URL", "github.com/fsnotify/fsnotify.Event", "os/exec.Cmd", "os.Process", "syscall.SysProcAttr":
 			return true
 		}
 	}
